@@ -619,7 +619,7 @@ impl Mp4Track {
     fn is_sync_sample(&self, sample_id: u32) -> bool {
         if !self.trafs.is_empty() {
             let sample_sizes_count = self.sample_count() / self.trafs.len() as u32;
-            return sample_id == 1 || sample_id % sample_sizes_count == 0;
+            return sample_id == 1 || sample_id.checked_rem(sample_sizes_count) == Some(0);
         }
 
         if let Some(ref stss) = self.trak.mdia.minf.stbl.stss {
